@@ -41,3 +41,25 @@ Proof.
     + intros Q. apply Hc. eapply step_coll_dead; eassumption.
     + exists (a :: sched). simpl. unfold step'. rewrite E. exact Hf.
 Qed.
+
+(* with the forced release every run can be completed, whatever the fault *)
+Lemma terminable_freed f c (Hok : facts_ok f = true) :
+  f_fin_free f = true -> 1 <= c_workers c ->
+  forall m s, measure c s <= m -> Inv f c s ->
+  s_store s <> Some ODead -> s_coll s <> Some ODead ->
+  exists sched, final (run f c sched s) = true.
+Proof.
+  intros Hff HW. induction m as [|m IH]; intros s Hm HI Hs Hc.
+  - destruct (final s) eqn:F; [exists []; exact F|].
+    destruct (always_can_move f c s HI Hff HW Hs Hc F) as [a Ha].
+    unfold enabledb in Ha. destruct (step f c s a) as [s'|] eqn:E; [|discriminate].
+    pose proof (step_decreases f c s a s' HI E). lia.
+  - destruct (final s) eqn:F; [exists []; exact F|].
+    destruct (always_can_move f c s HI Hff HW Hs Hc F) as [a Ha].
+    unfold enabledb in Ha. destruct (step f c s a) as [s'|] eqn:E; [|discriminate].
+    pose proof (step_decreases f c s a s' HI E) as D.
+    destruct (IH s' ltac:(lia) (step_inv f c Hok s a s' HI E)) as [sched Hf].
+    + intros Q. apply Hs. eapply step_store_dead; eassumption.
+    + intros Q. apply Hc. eapply step_coll_dead; eassumption.
+    + exists (a :: sched). simpl. unfold step'. rewrite E. exact Hf.
+Qed.
